@@ -355,6 +355,50 @@ def template_ep(rng):
     return fen_of(b2, "w", "-", FILES[f + df] + "6")
 
 
+def template_ep_pin(rng):
+    """en passant with the CAPTURING pawn pinned: on its file (king and an enemy rook/queen on the capturer's file: the capture is
+    illegal), on the capture diagonal (legal) or on the other diagonal (illegal); the victim's file kept clear of accidental checks"""
+    f = rng.randrange(8)
+    df = rng.choice([-1, 1])
+    if not on(f + df, 4):
+        df = -df
+    b = {sq(f, 4): "P", sq(f + df, 4): "p"}
+    kind = rng.choice(["file", "file", "diag_cap", "diag_other"])
+    if kind == "file":
+        dirs = [(0, 1), (0, -1)]
+    elif kind == "diag_cap":
+        dirs = [(df, 1), (-df, -1)]
+    else:
+        dirs = [(-df, 1), (df, -1)]
+    kd = rng.choice(dirs)
+    # king on one side of the pawn along the line, enemy slider on the other, nothing between
+    kk = rng.randrange(1, 5)
+    kf, kr = f + kd[0] * kk, 4 + kd[1] * kk
+    if not on(kf, kr):
+        return None
+    ss = rng.randrange(1, 5)
+    sf, sr = f - kd[0] * ss, 4 - kd[1] * ss
+    if not on(sf, sr):
+        return None
+    line = [sq(f + kd[0] * i, 4 + kd[1] * i) for i in range(1, kk)] + [sq(f - kd[0] * i, 4 - kd[1] * i) for i in range(1, ss)]
+    ep_sq, origin = sq(f + df, 5), sq(f + df, 6)
+    if sq(kf, kr) in b or sq(sf, sr) in b or sq(kf, kr) in (ep_sq, origin) or sq(sf, sr) in (ep_sq, origin):
+        return None
+    if ep_sq in line or origin in line:
+        return None
+    b[sq(kf, kr)] = "K"
+    b[sq(sf, sr)] = rng.choice("rq") if kind == "file" else rng.choice("bq")
+    free = [s for s in range(64) if s not in b and s not in (ep_sq, origin) and s not in line
+            and max(abs(s % 8 - kf), abs(s // 8 - kr)) > 1]
+    if not free:
+        return None
+    b[rng.choice(free)] = "k"
+    b2 = rand_extra(rng, b, rng.randrange(0, 3))
+    for s in [ep_sq, origin] + line:
+        b2.pop(s, None)
+    return fen_of(b2, "w", "-", FILES[f + df] + "6")
+
+
 def template_castle(rng):
     kf = rng.randrange(1, 7)
     b = {sq(kf, 0): "K"}
@@ -598,7 +642,7 @@ def template_edgewrap(rng):
     return fen_of(b, "w")
 
 
-TEMPLATES = [("endgame", template_endgame), ("promo-castle", template_promo_castle), ("many", template_many_queens), ("kxr", template_kxr), ("kxhome", template_kxhome), ("pin", template_pin), ("multipin", template_multipin), ("pawnwedge", template_pawnwedge), ("check", template_check), ("ep", template_ep),
+TEMPLATES = [("endgame", template_endgame), ("promo-castle", template_promo_castle), ("many", template_many_queens), ("kxr", template_kxr), ("kxhome", template_kxhome), ("pin", template_pin), ("multipin", template_multipin), ("pawnwedge", template_pawnwedge), ("check", template_check), ("ep", template_ep), ("ep-pin", template_ep_pin),
              ("castle960", template_castle), ("promo", template_promo), ("longray", template_longray), ("edgewrap", template_edgewrap)]
 
 
